@@ -16,6 +16,8 @@ def obj_replay(c, rt, jsonl, nslots, parts, label):
     cmds = [[rt, "obj", "replay", p, "--slots", str(nslots), "--ctx", "1"] for p in pieces]
     tb = ts = known = 0
     for (rc, summ, out), p in zip(lib.run_parallel(cmds, timeout=3000), pieces):
+        if rc == 2 or rc == 124:
+            raise lib.ToolError("adapter reported a tool error / timed out (rc=%s)" % rc)
         if rc != 0 or summ is None:
             e2 = dict(os.environ); e2["VERIF_BISECT"] = "1"
             pr = subprocess.run(cmds[0][:3] + [p] + cmds[0][4:], capture_output=True, text=True, env=e2)
